@@ -342,6 +342,21 @@ func GenConfig(t *rapid.T, o GenOpts) *Config {
 					r.Outs = append(r.Outs, OutSpec{T: it, Impl: r.Outs[0].Impl, Nil: true})
 				}
 			}
+			if ok && o.NilOuts && group == "" && rapid.IntRange(0, 4).Draw(t, "typednil") == 0 {
+				// a secondary pointer-typed output the constructor always leaves nil (a typed nil
+				// pointer whose type has methods - Close() among them for the D types)
+				var cand []int
+				for j := 1; j < len(r.Outs); j++ {
+					if !r.Outs[j].Nil && !IsIface(r.Outs[j].T) && ConcreteTypes[r.Outs[j].T].Kind() == reflect.Pointer {
+						cand = append(cand, j)
+					}
+				}
+				if len(cand) > 0 {
+					j := rapid.SampledFrom(cand).Draw(t, "typednilIdx")
+					r.Outs[j].Nil = true
+					g.used[Ident{T: r.Outs[j].T}] = true // registered, but nothing can depend on it
+				}
+			}
 			if ok {
 				r.Group = group
 				for _, os := range r.Outs {
